@@ -261,3 +261,115 @@ Theorem name_save_other_encoding_refuted :
     forall pre, write_name_part ascii_enc pre r' = Err ValueErr.
 Proof. exact name_save_other_encoding_refuted_lemma. Qed.
 Print Assumptions name_save_other_encoding_refuted.
+
+(* =========================================================== every storage site *)
+(* Strings/Sites.v: one sum type [sval] of the places a string is stored, written and read with the
+   container / descriptor models of Psd/ (C01's model, on UTF-16 code units) composed with the
+   code-point codec above.  The two layers are the same functions: *)
+From PsdV Require Psd.Codec Psd.Model Psd.Descriptor Psd.Typed.
+From PsdV Require Import Strings.Bridge Strings.Sites Strings.SitesProofs Strings.SitesMain.
+
+Theorem unicode_writer_is_psd_codec : forall s p, valid_str s -> 0 < p ->
+  write_unicode_string s p = Psd.Codec.w_unicode (utf16_units s) p.
+Proof. exact unicode_write_bridge. Qed.
+Print Assumptions unicode_writer_is_psd_codec.
+
+Theorem unicode_reader_is_psd_codec : forall d p, bytes d ->
+  read_unicode_string d p =
+  (do ur <- Psd.Codec.r_unicode p d; Ok (join_units (fst ur), snd ur)).
+Proof. exact unicode_read_bridge. Qed.
+Print Assumptions unicode_reader_is_psd_codec.
+
+Theorem pascal_writer_is_psd_codec : forall enc s p, 0 < p ->
+  write_pascal_string enc s p = Psd.Codec.w_pascal (lift enc) s p.
+Proof. exact pascal_write_bridge. Qed.
+Print Assumptions pascal_writer_is_psd_codec.
+
+Theorem pascal_reader_is_psd_codec : forall dec d p, bytes d ->
+  read_pascal_string dec d p = Psd.Codec.r_pascal (lift dec) p d.
+Proof. exact pascal_read_bridge. Qed.
+Print Assumptions pascal_reader_is_psd_codec.
+
+(* (1) descriptor values - String ('TEXT'), Name, Class / GlobalClass, EnumeratedReference, Property,
+   Offset, and Descriptor / GlobalObject / ObjectArray / List / Reference holding them at ANY depth:
+   every string of the value comes back unchanged, the reader stops where the writer did, the
+   _TERMS state is unchanged.  [good] = valid code points without a lone high+low surrogate pair. *)
+Theorem descriptor_string_roundtrip : forall units t d bs n rest,
+  Psd.Descriptor.wf_terms t = true -> Psd.Descriptor.wf_dval units d = true -> dall good d = true ->
+  Psd.Descriptor.write_dval t (dmap utf16_units d) = Ok (bs, n) ->
+  exists d', Psd.Descriptor.read_dval units (S (length bs)) t (Psd.Descriptor.ostype_of d) (bs ++ rest)
+             = Ok (d', t, rest) /\ dmap join_units d' = d.
+Proof. exact descriptor_rt_cp. Qed.
+Print Assumptions descriptor_string_roundtrip.
+
+Example descriptor_hyp :
+  let d := Psd.Descriptor.DDesc Psd.Descriptor.OS_Objc [0x1F600] [110;117;108;108]
+             [([78;109;32;32], Psd.Descriptor.DString [0x416; 0; 0x301]);
+              ([1;2;3;4;5], Psd.Descriptor.DList Psd.Descriptor.OS_VlLs
+                 [Psd.Descriptor.DName [0x10FFFF] [76;121;114;32] [97];
+                  Psd.Descriptor.DClass Psd.Descriptor.OS_Clss [0xE9] [76;121;114;32]])] in
+  Psd.Descriptor.wf_dval [] d = true /\ dall good d = true /\
+  exists bs n, Psd.Descriptor.write_dval [] (dmap utf16_units d) = Ok (bs, n).
+Proof. cbn zeta. split; [reflexivity|]. split; [reflexivity|]. eexists. eexists. vm_compute. reflexivity. Qed.
+
+(* (2) a StringElement written by write_unicode_string itself inside a TaggedBlock (block padding
+   1/2/4, payload written with padding 4/4/1, parsed with padding 1) and inside an ImageResource *)
+Theorem string_element_in_tagged_block_roundtrip : forall ver pad sg key s bs n rest,
+  good s = true -> (pad = 1 \/ pad = 2 \/ pad = 4) -> Psd.Model.memz sg Psd.Model.model_tb_sigs = true ->
+  Psd.Typed.write_payload_block ver pad sg key (write_unicode_string s (inner_pad pad)) = Ok (bs, n) ->
+  Psd.Typed.read_payload_block read_string_cp ver pad (bs ++ rest) = Ok (Some (sg, key, s, rest)).
+Proof. exact string_element_block_rt. Qed.
+Print Assumptions string_element_in_tagged_block_roundtrip.
+
+Theorem string_element_in_resource_roundtrip : forall enc_s dec_s sg key rname s bs n rest,
+  good s = true -> Psd.Model.memz sg Psd.Model.model_res_sigs = true ->
+  Psd.Model.wf_name enc_s dec_s rname = true ->
+  Psd.Typed.write_payload_resource enc_s sg key rname (write_unicode_string s 1) = Ok (bs, n) ->
+  Psd.Typed.read_payload_resource dec_s read_string_cp (bs ++ rest) = Ok (sg, key, rname, s, rest).
+Proof. exact string_element_resource_rt. Qed.
+Print Assumptions string_element_in_resource_roundtrip.
+
+(* (3) ALL modelled sites at once: StringElement (any padding), StringElement in a resource / tagged
+   block, descriptor value, DescriptorBlock(2) (Slices v7/v8, ...), AlphaNamesUnicode (reader runs until
+   the data is exhausted), AlphaNamesPascal, URLList, VersionInfo, Slices v6 (name + per slice name, url,
+   target, message, alt tag, cell text), LinkedLayer (file name, child id, uuid), Pattern (name, id),
+   GradientMap (name).  For every structure v over code points whose unicode strings are [good] and
+   which is well formed ([sv_wf]: enum members valid, presence flags coherent, pascal strings inside the
+   domain where the codec round-trips, no slice after the first with id 16), what is read back from
+   the written bytes is v: every string at every site unchanged. *)
+Theorem all_sites_roundtrip : forall enc_s dec_s units t v bs n,
+  Psd.Descriptor.wf_terms t = true -> sv_wf enc_s dec_s units v = true -> sv_all good v = true ->
+  sv_write_cp enc_s t v = Ok (bs, n) ->
+  sv_read_cp dec_s units t (shape_of v) bs = Ok v.
+Proof. exact all_sites_roundtrip_lemma. Qed.
+Print Assumptions all_sites_roundtrip.
+
+(* on code units nothing is assumed about the strings at all (lone surrogates included) *)
+Theorem all_sites_code_unit_roundtrip : forall enc_s dec_s units t v bs n,
+  Psd.Descriptor.wf_terms t = true -> sv_wf enc_s dec_s units v = true ->
+  sv_write enc_s t v = Ok (bs, n) -> sv_read dec_s units t (shape_of v) bs = Ok v.
+Proof. exact sv_rt. Qed.
+Print Assumptions all_sites_code_unit_roundtrip.
+
+Example all_sites_hyp :
+  let enc := lift macroman_enc in let dec := lift macroman_dec in
+  let v := VSlices (mkSlices [0;0;2;2] [0x1F600]
+             [mkSlice [1;0;1] (Some 7) [0x416] [0;0;0;1;1] [97;0] [] [0x301] [0xFFFF] true [0x10FFFF] [0;0;255;1;2;3];
+              mkSlice [2;0;0] None [] [0;0;0;1;1] [] [] [] [] false [] [0;0;0;0;0;0]]) in
+  sv_wf enc dec [] v = true /\ sv_all good v = true /\ exists bs n, sv_write_cp enc [] v = Ok (bs, n).
+Proof. cbn zeta. split; [reflexivity|]. split; [reflexivity|]. eexists. eexists. vm_compute. reflexivity. Qed.
+
+(* the guard on pascal strings cannot be dropped: sites with a pascal field REFUSE what it cannot
+   hold (unencodable, or longer than 255 bytes) - an error, never a shortened or altered string *)
+Theorem site_rejects_unfit_pascal : forall enc_s t v s,
+  In s (sv_pascal v) -> unfit enc_s s -> is_err (sv_write_cp enc_s t v).
+Proof. exact sv_rejects_cp. Qed.
+Print Assumptions site_rejects_unfit_pascal.
+
+Theorem all_sites_without_pascal_guard_refuted :
+  let enc := lift macroman_enc in
+  sv_all good (VAlphaP [repeat 97 256]) = true /\ sv_all good (VAlphaP [[1046]]) = true /\
+  sv_write_cp enc [] (VAlphaP [repeat 97 256]) = Err StructErr /\
+  sv_write_cp enc [] (VAlphaP [[1046]]) = Err ValueErr.
+Proof. exact all_sites_pascal_refuted_lemma. Qed.
+Print Assumptions all_sites_without_pascal_guard_refuted.
